@@ -157,6 +157,12 @@ def parseEv (t : String) : Option Stream.Ev :=
   if t = "t" then some .stall else if t = "e" then some .eof
   else if t.startsWith "w:" then (ofHex (t.drop 2).toString).map .data else none
 
+/-- `W:<hex>` = these octets and the end of the stream right behind them -/
+def parseEvs (ts : List String) : Option (List Stream.Ev) :=
+  (ts.mapM fun (t : String) =>
+    if t.startsWith "W:" then (ofHex (t.drop 2).toString).map fun b => [Stream.Ev.data b, Stream.Ev.eof]
+    else (parseEv t).map fun e => [e]).map List.flatten
+
 def showOuts (l : List Stream.Out) : String :=
   "stream" ++ String.join (l.map fun
     | .pkt b => " pkt:" ++ toHex b
@@ -166,7 +172,7 @@ def showOuts (l : List Stream.Out) : String :=
 def streamModel (args : List String) : String :=
   match args with
   | mode :: timeout :: evs =>
-    match timeout.toNat?, evs.mapM parseEv with
+    match timeout.toNat?, parseEvs evs with
     | some t, some evs =>
       let s : Stream.Sock := { script := evs }
       let fuel := (Stream.dataOf evs).length + evs.length + 4
@@ -182,7 +188,7 @@ def streamSpec (args impl : List String) : String :=
   if impl.any (·.startsWith "crash") then "bad sanitizer-or-crash" else
   match args with
   | _ :: _ :: evs =>
-    match evs.mapM parseEv with
+    match parseEvs evs with
     | none => "bad-op"
     | some evs =>
       let stream := Stream.dataOf evs
